@@ -259,7 +259,8 @@ func randErrors(r *rng) []errSpec {
 func docSchema(r *rng) schemaSpec {
 	all := allKindsSpec("alltypes", "other")
 	small := randTypeSpec(r, "small", 5, []string{"other", "alltypes"})
-	other := typeSpec{name: "other", fields: []fieldSpec{{name: "title", code: 1}, {rel: true, name: "owner", toOne: true, target: "small"}}}
+	other := typeSpec{name: "other", fields: []fieldSpec{{name: "title", code: 1}, {rel: true, name: "owner", toOne: true, target: "small"},
+		{rel: true, name: "editor", toOne: true, target: "alltypes"}}}
 	return schemaSpec{types: []typeSpec{all, other, small}, wrapped: map[string]bool{"alltypes": r.bool(), "small": r.bool(), "other": r.bool()}}
 }
 
